@@ -33,6 +33,53 @@ def scalar_of(entry):
         return entry.get('name'), None
 
 
+def judge_scope(S, v, m, mid, ctx, opt):
+    """listing and by-name reads of the frame in focus against the ground-truth record of one marker"""
+    loc = S.cmd('locals')
+    ar = S.cmd('arg')
+    listed = [scalar_of(e) for e in (loc.get('ok') or [])] + [scalar_of(e) for e in (ar.get('ok') or [])]
+    v.count('marker_stops')
+    exp_bindings = [(n, val) for n, val in m['all_bindings']]
+    names_listed = [n for n, _ in listed]
+    mctx = dict(ctx, marker=mid, fn=m['fn'], line=m['line'], listed=listed, expected=exp_bindings)
+    for n in (m['must_not_list'] if opt == 0 else []):   # optimized code: lexical blocks of the DWARF need not follow the source
+        if n in names_listed:
+            v.violation('c19:lists-variable-declared-later-or-in-sibling-block',
+                        'a variable that is not in lexical scope at the current location is listed', dict(mctx, name=n))
+    for n in sorted({n for n, _ in exp_bindings}):
+        want = sorted(val for nn, val in exp_bindings if nn == n)
+        got = sorted((val for nn, val in listed if nn == n), key=lambda x: (x is None, x))
+        if opt == 0:
+            if len(got) > len(want):
+                v.violation('c19:lists-later-shadowing-binding', 'more bindings of a name are listed than are live at this point',
+                            dict(mctx, name=n, got=got, want=want))
+            elif len(got) < len(want):
+                v.violation('c19:in-scope-variable-not-listed', 'a variable that is in scope is not listed', dict(mctx, name=n, got=got, want=want))
+            elif [g for g in got if g is not None] and sorted(g for g in got if g is not None) != [w for w in want][:len([g for g in got if g is not None])] and \
+                    any(g not in want for g in got if g is not None):
+                v.violation('c19:wrong-value-for-in-scope-variable', 'a listed variable shows a value that no live binding of that name holds',
+                            dict(mctx, name=n, got=got, want=want))
+        else:
+            for g in got:
+                if g is not None and g not in want:
+                    v.violation('c19:opt:shown-value-wrong', 'optimized code: a variable is shown with a value it does not hold',
+                                dict(mctx, name=n, got=got, want=want))
+    # innermost binding by name
+    for n in sorted(m['visible']):
+        q = S.cmd('var', expr=n) if n != 'a' else S.cmd('arg', expr=n)
+        res = [scalar_of(e) for e in (q.get('ok') or [])]
+        vals = [val for _, val in res if val is not None]
+        v.count('by_name_reads')
+        if opt == 0 and not vals:
+            v.violation('c19:in-scope-name-does-not-resolve', 'a name that is in scope does not resolve to a value', dict(mctx, name=n, reply=str(q)[:200]))
+        elif vals and vals[0] != m['visible'][n]:
+            shadowed = sum(1 for nn, _ in exp_bindings if nn == n) > 1
+            v.violation('c19:name-resolves-to-outer-shadowed-binding' if shadowed and vals[0] in [val for nn, val in exp_bindings if nn == n]
+                        else ('c19:opt:shown-value-wrong' if opt else 'c19:name-resolves-to-wrong-value'),
+                        'a name resolves to a value other than its innermost live binding',
+                        dict(mctx, name=n, got=vals[0], want=m['visible'][n]))
+
+
 def run_case(spec):
     idx, cfgd, tier = spec
     v = Verdict('C19', tier, '')
@@ -63,51 +110,9 @@ def run_case(spec):
             if m is not None:
                 # ------------------------------------------------------------ static scope model of the caller
                 fr = S.cmd('frame', num=1)
-                loc = S.cmd('locals')
-                ar = S.cmd('arg')
-                listed = [scalar_of(e) for e in (loc.get('ok') or [])] + [scalar_of(e) for e in (ar.get('ok') or [])]
-                v.count('marker_stops')
-                exp_bindings = [(n, val) for n, val in m['all_bindings']]
-                names_listed = [n for n, _ in listed]
-                mctx = dict(ctx, marker=mid, fn=m['fn'], line=m['line'], listed=listed, expected=exp_bindings)
-                for n in (m['must_not_list'] if opt == 0 else []):   # optimized code: lexical blocks of the DWARF need not follow the source
-                    if n in names_listed:
-                        v.violation('c19:lists-variable-declared-later-or-in-sibling-block',
-                                    'a variable that is not in lexical scope at the current location is listed', dict(mctx, name=n))
-                for n in sorted({n for n, _ in exp_bindings}):
-                    want = sorted(val for nn, val in exp_bindings if nn == n)
-                    got = sorted((val for nn, val in listed if nn == n), key=lambda x: (x is None, x))
-                    if opt == 0:
-                        if len(got) > len(want):
-                            v.violation('c19:lists-later-shadowing-binding', 'more bindings of a name are listed than are live at this point',
-                                        dict(mctx, name=n, got=got, want=want))
-                        elif len(got) < len(want):
-                            v.violation('c19:in-scope-variable-not-listed', 'a variable that is in scope is not listed', dict(mctx, name=n, got=got, want=want))
-                        elif [g for g in got if g is not None] and sorted(g for g in got if g is not None) != [w for w in want][:len([g for g in got if g is not None])] and \
-                                any(g not in want for g in got if g is not None):
-                            v.violation('c19:wrong-value-for-in-scope-variable', 'a listed variable shows a value that no live binding of that name holds',
-                                        dict(mctx, name=n, got=got, want=want))
-                    else:
-                        for g in got:
-                            if g is not None and g not in want:
-                                v.violation('c19:opt:shown-value-wrong', 'optimized code: a variable is shown with a value it does not hold',
-                                            dict(mctx, name=n, got=got, want=want))
-                # innermost binding by name
-                for n in sorted(m['visible']):
-                    q = S.cmd('var', expr=n) if n != 'a' else S.cmd('arg', expr=n)
-                    res = [scalar_of(e) for e in (q.get('ok') or [])]
-                    vals = [val for _, val in res if val is not None]
-                    v.count('by_name_reads')
-                    if opt == 0 and not vals:
-                        v.violation('c19:in-scope-name-does-not-resolve', 'a name that is in scope does not resolve to a value', dict(mctx, name=n, reply=str(q)[:200]))
-                    elif vals and vals[0] != m['visible'][n]:
-                        shadowed = sum(1 for nn, _ in exp_bindings if nn == n) > 1
-                        v.violation('c19:name-resolves-to-outer-shadowed-binding' if shadowed and vals[0] in [val for nn, val in exp_bindings if nn == n]
-                                    else ('c19:opt:shown-value-wrong' if opt else 'c19:name-resolves-to-wrong-value'),
-                                    'a name resolves to a value other than its innermost live binding',
-                                    dict(mctx, name=n, got=vals[0], want=m['visible'][n]))
+                judge_scope(S, v, m, mid, ctx, opt)
                 S.cmd('frame', num=0)
-                v.case(signature=('marker', m['fn'], len(exp_bindings), len(m['must_not_list']), opt), n=1)
+                v.case(signature=('marker', m['fn'], len(m['all_bindings']), len(m['must_not_list']), opt), n=1)
             elif rec['first_marker'] <= mid <= rec['first_marker'] + rec['depth']:
                 # ------------------------------------------------------------ recursion: every frame shows its own activation
                 depth_now = mid - rec['first_marker']
@@ -173,6 +178,49 @@ def run_case(spec):
     return v.export()
 
 
+def line_stop_case(spec):
+    """the same scope records judged in frame 0, stopped on the marker statement itself: its first instruction is the first
+    address after whatever block was closed just before it, and the last address before the `let`s that follow it"""
+    idx, cfgd, tier = spec
+    v = Verdict('C19', tier, '')
+    src, side = scope.gen(common.seed() * 100 + idx)
+    b = corpus.compile_rust(f'scope{idx}', src, corpus.Config(**cfgd), side)
+    ctx = {'binary': b.path, 'opt': 0, 'leg': 'stopped-on-the-marker-statement'}
+    S = Session(b, v, mon=False, timeout=TMO)
+    by_line = {m['line']: (mid, m) for mid, m in side['markers'].items()}
+    try:
+        S.launch()
+        srcname = os.path.basename(b.src)
+        for line in sorted(by_line):
+            S.cmd('break_line', file=srcname, line=line)
+        r = S.cmd('start', timeout=TMO)
+        guard = 0
+        while not S.exited and guard < 300:
+            guard += 1
+            if (r.get('ok') or {}).get('stop') != 'breakpoint':
+                break
+            place = None
+            for e in r.get('ev', []):
+                if e.get('ev') == 'breakpoint':
+                    place = e.get('place') or {}
+            hit = by_line.get((place or {}).get('line'))
+            if hit is not None:
+                mid, m = hit
+                v.count('statement_stops')
+                judge_scope(S, v, m, mid, ctx, 0)
+                v.case(signature=('marker-line', m['fn'], len(m['all_bindings']), len(m['must_not_list'])), n=1)
+            r = S.cmd('cont', timeout=TMO)
+    except Crash as c:
+        loc = (c.info or {}).get('panic', {}).get('loc') if c.kind == 'panic' else (c.info or {}).get('cmd')
+        if c.kind == 'hang':
+            v.inconc('watchdog', dict(ctx, info=c.info))
+        else:
+            v.violation(f'crash:{c.kind}:{loc}', f'debugger {c.kind} on a variable query', dict(ctx, info=c.info), prop='C08')
+    finally:
+        S.close()
+    return v.export()
+
+
 def main(tier):
     rule = ('case = one marker stop of a generated program: the caller frame is selected and var locals / arg all / var <name> are compared '
             'with the generator\'s scope model (in-scope bindings with values, names declared later or in sibling blocks, innermost binding of '
@@ -186,5 +234,9 @@ def main(tier):
     n = 6 if tier == 'quick' else 100
     specs = [(i, cfgs[i % 4], tier) for i in range(n)]
     for res in common.safe_map(run_case, specs, procs=8):
+        V.merge(res)
+    # frame 0 stopped on the marker statements themselves (unoptimized programs)
+    V.minima['statement_stops'] = 40 if tier == 'quick' else 1500
+    for res in common.safe_map(line_stop_case, [s_ for s_ in specs if s_[1].get('opt', 0) == 0], procs=8):
         V.merge(res)
     return V.finish()
